@@ -22,11 +22,14 @@ def get_model(tf, kind, shape):
     key = (kind,) + tuple(shape)
     if key in _MODELS:
         return _MODELS[key]
-    rng = np.random.default_rng(abs(hash(key)) % (1 << 31))
+    import zlib
+    rng = np.random.default_rng(zlib.crc32(repr(key).encode()))     # stable across processes (str hashes are randomised)
     inp = tf.keras.Input(tuple(shape))
     tag = "_".join(map(str, key))
     if kind == "img":
-        c = tf.keras.layers.Conv2D(2, (2, 2), padding="same", activation="relu", name=f"conv_{tag}")(inp)
+        # softplus (never flat): a ReLU unit that is dead on a sample makes the score constant around that sample,
+        # for which Sobol's variance is 0 and the documented result is NaN - outside the property ("score not constant")
+        c = tf.keras.layers.Conv2D(2, (2, 2), padding="same", activation="softplus", name=f"conv_{tag}")(inp)
         f = tf.keras.layers.Flatten(name=f"fl_{tag}")(c)
     elif kind == "ts":
         f = tf.keras.layers.Flatten(name=f"fl_{tag}")(inp)
@@ -36,7 +39,7 @@ def get_model(tf, kind, shape):
     out = tf.keras.layers.Dense(3, name=f"o_{tag}")(h)
     m = tf.keras.Model(inp, out)
     for v in m.trainable_variables:
-        v.assign((rng.integers(-4, 5, size=v.shape) / 4.0).astype(np.float32))
+        v.assign((rng.integers(-4, 5, size=v.shape) / 8.0).astype(np.float32))
     _MODELS[key] = m
     return m
 
@@ -135,7 +138,11 @@ def run_case(ctx, d):
     inp, tgt = make_container(tf, cont, x, y)
     try:
         out = seeded(lambda: build(name, model, kind)(inp, tgt)).numpy()
-        same = out.shape == refn.shape and bool(np.allclose(out, refn, rtol=1e-6, atol=1e-7))
+        # "identical" up to float32 re-association: TF's multi-threaded kernels may split reductions differently
+        # from run to run (observed under heavy machine load), so bitwise equality is not demanded
+        # (Grad-CAM++ divides by 2G^2 + G^3*mean(A), which can nearly cancel and amplify a one-ulp difference)
+        rt, at = (1e-3, 1e-4) if name == "GradCAMPP" else (1e-5, 1e-6)
+        same = out.shape == refn.shape and bool(np.allclose(out, refn, rtol=rt, atol=at * max(1.0, float(np.abs(refn).max()))))
         detail = {"container_shape": list(out.shape), "reference_shape": list(refn.shape),
                   "maxdiff": float(np.max(np.abs(out - refn))) if out.shape == refn.shape else None}
     except Exception as e:  # noqa: BLE001
@@ -147,7 +154,8 @@ def run_case(ctx, d):
     if d.get("check_call"):
         ok, e2 = ctx.impl_call(d, lambda: seeded(lambda: build(name, model, kind)(x.astype(np.float32), y)).numpy())
         if ok:
-            ctx.check_prop("call-is-explain", bool(np.array_equal(e2, refn)), d, {"maxdiff": float(np.max(np.abs(e2 - refn)))})
+            ctx.check_prop("call-is-explain", e2.shape == refn.shape and bool(np.allclose(e2, refn, rtol=1e-5, atol=1e-6 * max(1.0, float(np.abs(refn).max())))),
+                           d, {"maxdiff": float(np.max(np.abs(e2 - refn))) if e2.shape == refn.shape else None})
 
 
 def gen_cases(ctx):
